@@ -43,10 +43,24 @@ def eval_clause(ip, fn, env, what):
     return C(None)
 
 
-def clause_bool(ip, fn, env, what):
-    v = eval_clause(ip, fn, env, what)
-    t = ip.z_truth(v)
-    return z3.BoolVal(t) if isinstance(t, bool) else t
+CLAUSE_CACHE = False      # goal-mode clauses embed instances of path-specific quantified facts: not cacheable
+
+
+def clause_bool(ip, fn, env, what, mode="goal"):
+    """A contract clause as one z3 Bool (all its paths merged; the caller's path is not forked).
+    mode 'goal': forall_idx is skolemised (known quantified facts instantiated at the skolem);
+    mode 'assume': forall_idx registers a quantified fact for later instantiation."""
+    from .comp import merged_bool
+    prev = getattr(ip, "clause_mode", None)
+    ip.clause_mode = mode
+    try:
+        from .comp import value_key
+        node = ip.program.node_of(fn)
+        key = ("clause", id(node)) + tuple((k, value_key(v)) for k, v in sorted(env.items()) if k in
+                                            {a.arg for a in node.args.args}) if node is not None else None
+        return merged_bool(ip, lambda sub: eval_clause(sub, fn, env, what), key if CLAUSE_CACHE else None)
+    finally:
+        ip.clause_mode = prev
 
 
 def apply_contract(ip, con, f, args, kwargs):
@@ -77,7 +91,7 @@ def apply_contract(ip, con, f, args, kwargs):
         env2 = dict(env)
         env2["result"] = result
         env2["old"] = LDict([(C(k), v) for k, v in old.items()])
-        ip.path.assume(clause_bool(ip, con.ensures, env2, f"{qn}#ensures"))
+        ip.path.assume(clause_bool(ip, con.ensures, env2, f"{qn}#ensures", mode="assume"))
     ip.assumptions_used.add(f"contract of {qn} ({'assumed' if con.assumed else 'proved separately'}) used at a call site")
     return result
 
